@@ -232,7 +232,7 @@ def check_props(prop_id):
         res["failures"].append("missing " + path)
         return res
     text = strip_comments(open(path).read())
-    thms = re.findall(r"\bTheorem\s+(\w+)", text)
+    thms = re.findall(r"^\s*(?:Theorem|Definition)\s+(%s_\w+)" % prop_id, text, re.M)
     res["theorems"] = thms
     res["obligations"] = len(thms)
     # pins: the statements may not change silently
@@ -271,6 +271,15 @@ def check_props(prop_id):
         res["failures"].append("fewer Print Assumptions results (%d) than theorems (%d)" % (n_closed, len(thms)))
     if bad:
         res["failures"].append("theorems depend on non-allow-listed axioms: " + ", ".join(sorted(bad)))
+    # the statements (types as Coq prints them) are pinned too: a theorem cannot be weakened silently
+    types = props_types(prop_id, thms)
+    if types is None:
+        res["failures"].append("cannot print the types of the theorems of Props/%s.v" % prop_id)
+    else:
+        th = hashlib.sha256(re.sub(r"\s+", " ", types).strip().encode()).hexdigest()
+        if pins.get(prop_id + ".types") != th:
+            res["failures"].append("the statements of Props/%s.v differ from the pinned ones (tools/pins.json, "
+                                   "coq/theories/Props/%s.statements.txt)" % (prop_id, prop_id))
     hits = forbidden_tokens()
     if hits:
         res["failures"].append("forbidden constructs: " + "; ".join("%s:%d %s" % h for h in hits[:5]))
@@ -279,14 +288,45 @@ def check_props(prop_id):
     return res
 
 
+def props_types(prop_id, thms):
+    """the types of the property's theorems as Coq prints them (needs build/props/<id>.vo)"""
+    outdir = os.path.join(BUILD, "props")
+    src = os.path.join(outdir, prop_id + "_types.v")
+    with open(src, "w") as f:
+        f.write("Require Import %s.\n" % prop_id)
+        for t in thms:
+            f.write("Check @%s.\n" % t)
+    with Lock("props"):
+        rc, out = sh(["timeout", "600", "coqc", "-Q", "theories", "ASV", "-Q", outdir, "", src], cwd=COQ, timeout=700)
+    for ext in (".vo", ".glob", ".vok", ".vos"):
+        try:
+            os.remove(os.path.join(outdir, prop_id + "_types" + ext))
+        except OSError:
+            pass
+    return out if rc == 0 else None
+
+
 def update_pins():
     pins = {}
     d = os.path.join(COQ, "theories", "Props")
+    outdir = os.path.join(BUILD, "props")
+    os.makedirs(outdir, exist_ok=True)
     for f in sorted(os.listdir(d)):
         if f.endswith(".v"):
             text = strip_comments(open(os.path.join(d, f)).read())
             norm = re.sub(r"\s+", " ", text).strip()
-            pins[f[:-2]] = hashlib.sha256(norm.encode()).hexdigest()
+            pid = f[:-2]
+            pins[pid] = hashlib.sha256(norm.encode()).hexdigest()
+            thms = re.findall(r"^\s*(?:Theorem|Definition)\s+(%s_\w+)" % pid, text, re.M)
+            rc, out = sh(["timeout", "900", "coqc", "-Q", "theories", "ASV", "-o", os.path.join(outdir, pid + ".vo"),
+                          os.path.join("theories", "Props", f)], cwd=COQ, timeout=1000)
+            if rc != 0:
+                print("cannot compile", f, out[-500:])
+                continue
+            types = props_types(pid, thms)
+            if types is not None:
+                pins[pid + ".types"] = hashlib.sha256(re.sub(r"\s+", " ", types).strip().encode()).hexdigest()
+                open(os.path.join(d, pid + ".statements.txt"), "w").write(types)
     json.dump(pins, open(os.path.join(ROOT, "tools", "pins.json"), "w"), indent=1, sort_keys=True)
     return pins
 
